@@ -28,4 +28,71 @@ PROPS = {
             native("rx-debug", "c05", "debug", args={"scale-pct": dict(quick=25, thorough=10)}),
         ],
     ),
+
+    "C01": dict(
+        level="exploration",
+        engine="pduloop",
+        technique="runtime monitoring under a deterministic baton scheduler: every shared-state access of the PDU loop is a cfg-gated yield point; tagged requests + keyed wire responses give an unambiguous history; M-route/M-view oracles at the API boundary",
+        level_text=("Seeded exploration of interleavings (random, PCT priorities, chosen pre-emption points) of 1-3 application tasks, TX and RX over 1/2/4/8 slots with in-order, reversed, random and duplicated response delivery. "
+                    "Every request carries a unique tag; the wire answers with a keyed function of the tag, so a completion with anything but its own bytes/working counter, a delivered response whose request never completes (scheduler detects that nobody is left to wake the caller), "
+                    "a view that shows bytes outside its data area after any front trim, or a held view whose bytes change while other requests run, is decided without search. Held = none of these on the executions produced."),
+        level_note="Sequentially consistent interleavings only (weak-memory effects are left to the Miri/TSan runs of C02); sampled schedules, not all; the <256-indices-in-flight assumption is respected by construction; views produced by the crate-internal iterator are judged only while the iterator (which owns the frame) is alive.",
+        rule=("case = one execution (configuration + schedule); non-trivial = at least two actors interleaved on one slot or a reorder/duplicate/abandon happened; distinct by hash of the full hook-event trace and of the schedule"),
+        assumptions=["fewer than 256 datagram indices are allocated while a request is outstanding", "no deadline expires for observed requests (timeout = 100000 s of virtual time)", "the baton serialises actors: only sequentially consistent interleavings"],
+        min_distinct=dict(quick=10000, thorough=300000),
+        required_counters=["requests_completed", "responses_reordered", "responses_duplicated", "views_held_across_requests", "front_trims", "cfg.index_wrap_family",
+                           "site.RxFound", "site.WakerTake", "site.PollBegin", "transition.swap:RxBusy->RxDone", "transition.swap:RxDone->RxProcessing"],
+        runs=[
+            native("sched-release", "c01", "release", args={"family": "c01", "scale-pct": dict(quick=500, thorough=200)}),
+            native("sched-debug", "c01", "debug", args={"family": "c01", "scale-pct": dict(quick=60, thorough=10)}),
+        ],
+    ),
+    "C02": dict(
+        level="exploration",
+        engine="pduloop",
+        technique="runtime monitoring under the baton scheduler: shadow lifecycle state per slot fed by state-change hooks (transition relation), buffer access windows (builder/TX/RX/reader) and ownership generations checked on every event",
+        level_text=("Seeded + systematic (all single/double pre-emption placements over the first ~260 steps of small 1-2 slot configurations) exploration of interleavings with send failures (error/partial), duplicate and late responses and abandonment in every non-inside state. "
+                    "Monitors: every observed state change must be in the documented lifecycle relation; a window onto a slot's buffer may not open while another party's window is open; a slot may not be re-initialised while any handle of the previous request (created frame, future, TX/RX claim, received frame, view) is alive. Held = no such event on the executions produced."),
+        level_note="Exact because the baton serialises actors (shadow state == real state, asserted). Weak-memory-only races are outside the baton's reach; the Miri and ThreadSanitizer runs of the free-running variant cover what they can.",
+        rule="case = one execution; non-trivial and distinct as for C01 (hash of event trace + schedule); aux_distinct = distinct slot-state vectors observed",
+        assumptions=["abandonment only while neither TX nor RX is inside the slot (C06 covers the rest)", "sequentially consistent interleavings"],
+        min_distinct=dict(quick=10000, thorough=300000),
+        required_counters=["send_failures", "requests_abandoned", "responses_duplicated", "access_windows", "transition.store:Sending->Sendable", "transition.store:Sent->None", "transition.swap:Created->None", "cfg.policy.preempt-at"],
+        runs=[
+            native("sched-release", "c01", "release", args={"family": "c02", "scale-pct": dict(quick=500, thorough=200)}),
+            native("sched-debug", "c01", "debug", args={"family": "c02", "scale-pct": dict(quick=60, thorough=10)}),
+        ],
+    ),
+    "C03": dict(
+        level="exploration",
+        engine="pduloop",
+        technique="runtime monitoring of operation histories: conservation invariant (slots not free == live owning handles) checked through the slot inspector after every operation, plus a drain-and-reallocate probe through MainDevice and a reset probe",
+        level_text=("Random operation histories (depth <= 40) over 1/2/4 slots mixing round trips, refused pushes, send errors and partial sends, lost/duplicate/garbage/oversized responses, expiry with 0-3 retries or forever under virtual time, drops of every handle kind and reset. "
+                    "After each operation the number of non-free slots must equal the number of live handles that own one; an allocation may fail only when all N are owned; after the history N single-datagram requests through MainDevice must allocate and the N+1st must fail; MainDevice::release must free leaked slots."),
+        level_note="Operation-granularity interleaving (no pre-emption inside calls: that is C02/C06). Trusts the harness' bookkeeping of which handles it holds.",
+        rule="case = one operation history; non-trivial = contains at least one error/abandon/expiry path; distinct by hash of the operation sequence",
+        assumptions=["abandonment exactly while TX is inside the buffer is the C06 window"],
+        min_distinct=dict(quick=4000, thorough=300000),
+        required_counters=["completed", "timed_out", "send_failures", "op.rx-duplicate", "op.rx-garbage", "op.rx-oversize", "op.drop-future", "op.drop-created", "probes", "resets", "alloc_refused_when_full"],
+        runs=[
+            native("hist-release", "c03", "release"),
+            native("hist-debug", "c03", "debug", args={"scale-pct": dict(quick=30, thorough=10)}),
+        ],
+    ),
+    "C04": dict(
+        level="exploration",
+        engine="pduloop",
+        technique="runtime monitoring with an independent reference encoder: the bytes handed to the send closure are compared with vh::wire's encoding of the accepted pushes; refused pushes must leave the frame untouched",
+        level_text=("Every frame size 28..=1514 (runtime frame length hook) x random push programs over all 11 command kinds via raw enums and via the Command::* helpers (auto-increment negation), payloads 0..capacity+slack, length overrides below/equal/above, fill-the-rest 0..2*capacity, failing pushes in the middle, on re-used slots (stale-byte detection). "
+                    "Byte equality with the independent encoder except the index byte; TooLong / cut counts exactly as computed from the frame size."),
+        level_note="The reference encoder (harness/src/wire.rs) is written from ETG.1000.4 and is the trusted base; frames above 1514 bytes are not generated.",
+        rule="case = (frame size, push program); non-trivial = at least 2 accepted datagrams or a push that lands exactly on / one past the capacity boundary; distinct by program hash",
+        assumptions=["frame sizes above 2047+16 are outside the quantifier"],
+        min_distinct=dict(quick=8000, thorough=400000),
+        required_counters=["push.fits", "push.too_long", "rest.cut", "rest.all", "rest.none", "override.above", "override.below", "cmd.0", "cmd.1", "cmd.2", "cmd.4", "cmd.5", "cmd.7", "cmd.8", "cmd.10", "cmd.11", "cmd.12", "cmd.14"],
+        runs=[
+            native("enc-release", "c04", "release"),
+            native("enc-debug", "c04", "debug", args={"scale-pct": dict(quick=30, thorough=5)}),
+        ],
+    ),
 }
